@@ -36,6 +36,36 @@ var solvers = []Solver{
 	{Name: "cvc5", Cvc5: true, Cmd: func(f string, t int) []string { return []string{"cvc5", fmt.Sprintf("--tlimit=%d", t*1000), f} }},
 }
 
+// cvc5 with int-blasting: decides multiplication/division-by-constant facts over 64-bit vectors that
+// bit-blasting does not finish (whole-second durations); raced only for queries that contain such operators.
+var cvc5Int = Solver{Name: "cvc5-int", Cvc5: true, Cmd: func(f string, t int) []string {
+	return []string{"cvc5", "--solve-bv-as-int=sum", fmt.Sprintf("--tlimit=%d", t*1000), f}
+}}
+
+func hasHardArith(as []*Term) bool {
+	seen := map[*Term]bool{}
+	found := false
+	var walk func(t *Term)
+	walk = func(t *Term) {
+		if found || seen[t] {
+			return
+		}
+		seen[t] = true
+		switch t.Op {
+		case "bvmul", "bvsdiv", "bvsrem", "bvudiv", "bvurem":
+			found = true
+			return
+		}
+		for _, a := range t.Args {
+			walk(a)
+		}
+	}
+	for _, a := range as {
+		walk(a)
+	}
+	return found
+}
+
 var scratchDir string
 var scratchOnce sync.Once
 
@@ -242,59 +272,60 @@ func discharge(ob *Obligation, tag string, timeout int, thorough bool, values []
 			return d
 		}
 	}
-	// race the portfolio; first conclusive answer wins, the others are cancelled
-	ctx, cancel := context.WithCancel(context.Background())
-	ch := make(chan SolveResult, len(solvers))
-	for _, sv := range solvers {
-		sv := sv
-		go func() {
-			script := Script(as, ScriptOpts{Cvc5: sv.Cvc5, GetValues: values})
-			ch <- runSolverCtx(ctx, sv, script, tag, timeout)
-		}()
-	}
-	var r SolveResult
-	got := map[string]string{}
-	for i := 0; i < len(solvers); i++ {
-		r2 := <-ch
-		tried = append(tried, fmt.Sprintf("%s:%s:%.2fs", r2.Solver, r2.Status, r2.Seconds))
-		got[r2.Solver] = r2.Status
-		conclusive := r2.Status == "unsat" || r2.Status == "sat"
-		if conclusive && !(r.Status == "unsat" || r.Status == "sat") {
-			r = r2
-			if !thorough {
-				break
-			}
-		} else if conclusive && r2.Status != r.Status {
-			r = SolveResult{Status: "error", Solver: "portfolio", Output: fmt.Sprintf("solver disagreement: %v", got)}
-			break
-		} else if conclusive && thorough {
-			r.Solver = r.Solver + "+" + r2.Solver
-		}
-		if r.Status == "" {
-			r = r2
-		}
-	}
-	cancel()
-	// fallback: decide each path of the obligation separately (smaller queries)
-	if r.Status != "unsat" && r.Status != "sat" && len(ob.Cases) > 1 && !ob.Cover && !ob.single {
-		allUnsat := true
-		var worst SolveResult
+	perPath := func() (SolveResult, bool) {
 		total := 0.0
 		for ci, c := range ob.Cases {
 			sub := &Obligation{Name: ob.Name, Kind: ob.Kind, Cases: []Case{c}, single: true}
 			dd := discharge(sub, fmt.Sprintf("%s.c%d", tag, ci), timeout, false, values)
 			total += dd.Res.Seconds
 			tried = append(tried, fmt.Sprintf("case%d[%s]", ci, strings.Join(dd.Res.Tried, " ")))
+			if dd.Res.Status == "sat" {
+				return dd.Res, true
+			}
 			if dd.Res.Status != "unsat" {
-				allUnsat = false
-				worst = dd.Res
-				break
+				return dd.Res, false
 			}
 		}
-		if allUnsat {
-			r = SolveResult{Status: "unsat", Solver: "per-path", Seconds: total}
-		} else if worst.Status == "sat" {
-			r = worst
+		return SolveResult{Status: "unsat", Solver: "per-path", Seconds: total}, true
+	}
+	// few paths: the per-path queries are much smaller than their disjunction, decide them first
+	pathFirst := len(ob.Cases) >= 2 && len(ob.Cases) <= 4 && !ob.Cover && !ob.single && !thorough
+	if pathFirst {
+		if rp, ok := perPath(); ok {
+			rp.Tried = tried
+			if rp.Status == "sat" {
+				rp.Values = parseValues(rp.Output)
+			}
+			d.Res = rp
+			return d
+		}
+	}
+	// multiplication / division by constants that are not powers of two: first try the query with those
+	// operators abstracted to uninterpreted functions (sound for unsat: every model of the concrete query is
+	// a model of the abstraction), which is what congruence-style arguments need
+	if hasHardArith(as) && !ob.Cover {
+		abs := abstractArith(as)
+		ra, tr := race(abs, tag+".abs", timeout, false, nil, solvers)
+		for _, t := range tr {
+			tried = append(tried, "abs:"+t)
+		}
+		if ra.Status == "unsat" {
+			ra.Solver = ra.Solver + "(arith-abstracted)"
+			ra.Tried = tried
+			d.Res = ra
+			return d
+		}
+	}
+	racers := solvers
+	if hasHardArith(as) {
+		racers = append(append([]Solver{}, solvers...), cvc5Int)
+	}
+	r, tr := race(as, tag, timeout, thorough, values, racers)
+	tried = append(tried, tr...)
+	// fallback: decide each path of the obligation separately (smaller queries)
+	if r.Status != "unsat" && r.Status != "sat" && len(ob.Cases) > 1 && !ob.Cover && !ob.single && !pathFirst {
+		if rp, ok := perPath(); ok {
+			r = rp
 		}
 	}
 	if ob.Cover && r.Status != "sat" && r.Status != "unsat" {
@@ -319,6 +350,153 @@ func discharge(ob *Obligation, tag string, timeout int, thorough bool, values []
 	}
 	d.Res = r
 	return d
+}
+
+
+// race runs the solvers on one assertion set; the first conclusive answer wins and the others are cancelled
+// (in thorough mode all are awaited and must agree).
+func race(as []*Term, tag string, timeout int, thorough bool, values []*Term, racers []Solver) (SolveResult, []string) {
+	var tried []string
+	ctx, cancel := context.WithCancel(context.Background())
+	defer cancel()
+	ch := make(chan SolveResult, len(racers))
+	for _, sv := range racers {
+		sv := sv
+		go func() {
+			script := Script(as, ScriptOpts{Cvc5: sv.Cvc5, GetValues: values})
+			ch <- runSolverCtx(ctx, sv, script, tag, timeout)
+		}()
+	}
+	var r SolveResult
+	got := map[string]string{}
+	for i := 0; i < len(racers); i++ {
+		r2 := <-ch
+		if r2.Solver == "cvc5-int" && r2.Status == "sat" {
+			r2.Status = "unknown" // models of the integer translation are not used
+		}
+		tried = append(tried, fmt.Sprintf("%s:%s:%.2fs", r2.Solver, r2.Status, r2.Seconds))
+		got[r2.Solver] = r2.Status
+		conclusive := r2.Status == "unsat" || r2.Status == "sat"
+		if conclusive && !(r.Status == "unsat" || r.Status == "sat") {
+			r = r2
+			if !thorough {
+				break
+			}
+		} else if conclusive && r2.Status != r.Status {
+			r = SolveResult{Status: "error", Solver: "portfolio", Output: fmt.Sprintf("solver disagreement: %v", got)}
+			break
+		} else if conclusive && thorough {
+			r.Solver = r.Solver + "+" + r2.Solver
+		}
+		if r.Status == "" {
+			r = r2
+		}
+	}
+	return r, tried
+}
+
+// abstractArith replaces products, quotients and remainders whose operands are not both constants and
+// where no operand is a power of two by applications of uninterpreted functions.
+func abstractArith(as []*Term) []*Term {
+	cache := map[*Term]*Term{}
+	pow2 := func(t *Term) bool {
+		if t.Op != "bvconst" {
+			return false
+		}
+		v := t.Val
+		return v.Sign() == 0 || new(big.Int).And(v, new(big.Int).Sub(v, big.NewInt(1))).Sign() == 0
+	}
+	var rec func(t *Term) *Term
+	rec = func(t *Term) *Term {
+		if len(t.Args) == 0 {
+			return t
+		}
+		if r, ok := cache[t]; ok {
+			return r
+		}
+		args := make([]*Term, len(t.Args))
+		changed := false
+		for i, a := range t.Args {
+			args[i] = rec(a)
+			if args[i] != a {
+				changed = true
+			}
+		}
+		var r *Term
+		switch t.Op {
+		case "bvmul", "bvsdiv", "bvsrem", "bvudiv", "bvurem":
+			if !pow2(args[0]) && !pow2(args[1]) {
+				a, b := args[0], args[1]
+				if t.Op == "bvmul" && a.Op == "bvconst" {
+					a, b = b, a
+				}
+				r = UF("abs!"+t.Op, t.Sort, a, b)
+			}
+		}
+		if r == nil {
+			r = t
+			if changed {
+				r = rebuild(t, args)
+			}
+		}
+		cache[t] = r
+		return r
+	}
+	out := make([]*Term, len(as))
+	for i, a := range as {
+		out[i] = rec(a)
+	}
+	// theory lemmas that tie the abstracted operators together where the product cannot overflow:
+	// for a of at most 32 bits zero-extended to 64 and a constant 0 < K < 2^31,
+	//   (a*K) /s K == a,  (a*K) %s K == 0,  a*K >=s 0.
+	// Each instance schema (one per K) is itself checked on the concrete operators before it is used.
+	seen := map[*Term]bool{}
+	var collect func(t *Term)
+	var lemmas []*Term
+	collect = func(t *Term) {
+		if seen[t] {
+			return
+		}
+		seen[t] = true
+		for _, a := range t.Args {
+			collect(a)
+		}
+		if t.Op == "uf" && t.Name == "abs!bvmul" && t.Sort.Width == 64 {
+			x, k := t.Args[0], t.Args[1]
+			if k.Op == "bvconst" && k.Val.Sign() > 0 && k.Val.BitLen() <= 31 && x.Op == "zero_extend" && x.Args[0].Sort.Width <= 32 && mulDivLemmaOK(k) {
+				lemmas = append(lemmas,
+					Eq(UF("abs!bvsdiv", t.Sort, t, k), x),
+					Eq(UF("abs!bvsrem", t.Sort, t, k), BVConst(0, 64)),
+					BVCmp("bvsge", t, BVConst(0, 64)))
+			}
+		}
+	}
+	for _, a := range out {
+		collect(a)
+	}
+	return append(out, lemmas...)
+}
+
+var mulDivMu sync.Mutex
+var mulDivChecked = map[string]bool{}
+
+// mulDivLemmaOK checks the lemma schema used by abstractArith for the constant k on the concrete
+// bit-vector operators (cvc5, integer translation).
+func mulDivLemmaOK(k *Term) bool {
+	key := k.Val.String()
+	mulDivMu.Lock()
+	defer mulDivMu.Unlock()
+	if ok, done := mulDivChecked[key]; done {
+		return ok
+	}
+	a := Var("lemma!a32", BV(32))
+	x := ZeroExt(a, 64)
+	m := BVBin("bvmul", x, k)
+	goal := And(Eq(BVBin("bvsdiv", m, k), x), Eq(BVBin("bvsrem", m, k), BVConst(0, 64)), BVCmp("bvsge", m, BVConst(0, 64)))
+	r := runSolver(cvc5Int, Script([]*Term{Not(goal)}, ScriptOpts{Cvc5: true}), "muldiv-lemma-"+key, 20)
+	ok := r.Status == "unsat"
+	mulDivChecked[key] = ok
+	return ok
 }
 
 var valueRe = regexp.MustCompile(`\(\s*([^\s()]+|\([^()]*\))\s+(#x[0-9a-fA-F]+|#b[01]+|true|false|-?\d+|\(-\s*\d+\))\s*\)`)
